@@ -50,11 +50,64 @@ def check(repo, col, tier):
     cl = _idx.compute_slots(repo, col, "R-C19-simulates", emit=())
     for nm in ("_step_synapse_state", "_synapse_currents"):
         c09._roles(repo, col, cl, nm, "R-C19-simulates", "R-C19-simulates")
+    # ... and the currents of ALL rows that end on one compartment arrive there (they add up)
+    c09._additive(repo, col, "R-C19-simulates")
     # registries of the base module (channels, groups, ...) are extended on the base's own current registry: an edit made through a
     # second view must see what the first view added (shared with C10/C11/C14)
+    col.rule("R-C19-recs", "recordings are (rec_index, state) pairs with unique row labels", 2)
+    recordings_matching(repo, col, "R-C19-recs")
     from . import c11
     col.rule("R-C19-basestate", "updates of the base module's registries are decided on the base's current registry, not a view's snapshot", 3)
     c11._basestate(repo, col, "R-C19-basestate")
+
+
+def recordings_matching(repo, col, R):
+    """A recording is the PAIR (rec_index, state): rec_index alone is a compartment row for membrane quantities and an edge row for
+    synaptic ones, so the two number spaces overlap.  (a) delete_recordings through a view removes the base's rows that equal a row of
+    the view in BOTH columns; (b) because that comparison (DataFrame.isin(DataFrame)) aligns the two tables on their row labels,
+    record() must give every appended row a fresh label (F24: pd.concat without ignore_index repeated the labels 0, 1, ... per
+    call and the comparison raised for any view holding recordings of two record() calls)."""
+    fi = repo.method("Module", "delete_recordings")
+    ex = idx.expander(repo, fi)
+    sts = [s_ for s_ in ex.stores if s_.kind == "attr" and s_.key.name == "recordings" and s_.base.op == "attr" and s_.base.name == "base" and
+           any(T.find(g, lambda x: x.op == "call" and x.name == "isinstance") is not None for g in s_.guards)]
+    view_st = [s_ for s_ in sts if T.find(s_.value, lambda x: x.op == "attr" and x.name == "recordings" and x.args[0].op == "param") is not None]
+    label_aligned = False
+    if not view_st:
+        col.unk(R, fi, "delete_recordings through a view removes exactly the view's recordings", "the store of the remaining rows was not found", node=fi.node)
+    for s_ in view_st:
+        v = s_.value
+        isin = T.find(v, lambda x: x.op == "mcall" and x.name == "isin")
+        merge = T.find(v, lambda x: x.op == "mcall" and x.name == "merge")
+        if isin is None and merge is None:
+            col.unk(R, fi, "delete_recordings through a view removes exactly the view's recordings", f"matching not recognised in {v.short(80)}", node=s_.node)
+            continue
+        if isin is not None:
+            a_, b_ = (isin.args[1], isin.args[2]) if (isin.args[0].op == "free" and len(isin.args) > 2) else (isin.args[0], isin.args[1])
+            one_col = [x for x in (a_, b_) if x.op == "sub" and x.args[1].op == "const" and isinstance(x.args[1].name, str)]
+            whole_rows = not one_col and T.find(v, lambda x: x.op == "mcall" and x.name == "all") is not None
+            label_aligned = label_aligned or whole_rows
+            col.check(whole_rows, R, fi, "delete_recordings matches (rec_index, state) pairs", "base_recs.isin(view_recs).all(axis=1)",
+                      f"rows are matched on `{one_col[0].args[1].name if one_col else '?'}` only (`{isin.short(80)}`): a compartment recording and a synaptic "
+                      f"recording with the same number are the same `rec_index`; deleting the recordings of a view then also deletes the other "
+                      f"kind of recording outside the view", node=s_.node)
+        else:
+            col.ok(R, fi, "delete_recordings matches (rec_index, state) pairs", "merge on the columns", node=s_.node)
+    rec = repo.method("Module", "record")
+    exr = idx.expander(repo, rec)
+    app = [s_ for s_ in exr.stores if s_.kind == "attr" and s_.key.name == "recordings" and
+           T.find(s_.value, lambda x: x.op == "mcall" and x.name == "concat") is not None]
+    if not app:
+        raise AnalysisError("Module.record no longer appends to base.recordings with pd.concat")
+    for s_ in app:
+        cc = T.find(s_.value, lambda x: x.op == "mcall" and x.name == "concat")
+        ii = cc.kw.get("ignore_index")
+        fresh = (ii is not None and ii.op == "const" and ii.name is True) or \
+            T.find(s_.value, lambda x: x.op == "mcall" and x.name == "reset_index" and x.kw.get("drop") is not None and x.kw["drop"].name is True) is not None
+        col.check(fresh or not label_aligned, R, rec, "record() gives the appended rows fresh row labels", "pd.concat(..., ignore_index=True)",
+                  "record() appends with `pd.concat([...])` and keeps the labels 0, 1, ... of every appended frame: the recordings table carries "
+                  "duplicate labels, and delete_recordings -- which aligns the view's rows with the base's rows BY LABEL (DataFrame.isin) -- "
+                  "raises `cannot compute isin with a duplicate axis` for a view that holds recordings of two record() calls", node=s_.node)
 
 
 def shared_resources(repo):
